@@ -156,6 +156,9 @@ func discardedErrors(c *Ctx, r *Repo, rule string, p *packages.Package, allowed 
 				case "fmt.Print", "fmt.Printf", "fmt.Println", "fmt.Fprint", "fmt.Fprintf", "fmt.Fprintln":
 					return // console output
 				}
+				if strings.HasPrefix(name, "(strings.Builder).Write") || strings.HasPrefix(name, "(bytes.Buffer).Write") {
+					return // documented to always return a nil error
+				}
 				if name == "" {
 					name = types.ExprString(call.Fun)
 				}
